@@ -397,6 +397,8 @@ KNOWN_TEXT = {
     "yaml-radix-sign-string": "YAML only: strings like \"0x-5\" / \"0o+7\" are written unquoted and read back as Numbers (i64::from_str_radix accepts a sign after the radix prefix)",
     "yaml-double-sign-string": "YAML only: strings like \"++5\" / \"+-5\" are written unquoted and read back as Numbers (strip '+' then i64 parse accepts a second sign)",
     "yaml-ls-ps-string": "YAML only: a string or key containing U+2028/U+2029 comes back with spaces inserted after them (the YAML 1.1 emitter breaks the line there and indents, the YAML 1.2 loader keeps both)",
+    "json-duplicate-keys": "a JSON object with a duplicate key is read differently by the two JSON loaders: std.deserialize 'Json (serde) keeps the last value, importing the file (event loader) keeps both definitions and merges them (error for different scalars)",
+    "toml-datetime-deserialize": "std.deserialize 'Toml turns a TOML datetime into the record { \"$__toml_private_datetime\" = \"..\" } (the toml crate's private serde representation) while importing the same file gives the string",
     "toml-import-inf-nan-panic": "importing a TOML file containing inf/nan panics (Rational::exact_from of a non-finite float) while std.deserialize 'Toml reports an error",
     "toml-import-float-exact": "importing a TOML file turns a float into the exact binary expansion of the f64 (Rational::exact_from) while std.deserialize 'Toml and the other formats give the shortest decimal: 0.1 imported from TOML is not 0.1",
 }
@@ -1051,9 +1053,129 @@ MALFORMED_YAML = ["a: &x 1\nb: *x\n", "a: &x [1, 2]\nb: *x\n", "&a [*a]\n", "a: 
                   "a: 0.1\nb: 1.5e3\nc: -0\nd: 007\ne: 0x\n", "a: 123456789012345678901234567890\n", "a: 18446744073709551615\n", "a: -9223372036854775809\n"]
 
 
+class _Tok(str):
+    """a raw JSON number token"""
+
+
+def json_strict(text):
+    """Independent strict JSON reading: numbers kept as tokens, object members as ordered pairs
+    (duplicates kept).  Raises ValueError on invalid JSON."""
+    def bad(x):
+        raise ValueError("constant " + x)
+    try:
+        t = json.loads(text, parse_int=_Tok, parse_float=_Tok, parse_constant=bad, object_pairs_hook=lambda ps: ("obj", ps))
+    except RecursionError as ex:
+        raise ValueError("too deep") from ex
+
+    def no_surrogates(v):
+        if isinstance(v, str) and any(0xD800 <= ord(c) <= 0xDFFF for c in v):
+            raise ValueError("lone surrogate")
+        if isinstance(v, list):
+            for e in v:
+                no_surrogates(e)
+        if isinstance(v, tuple):
+            for k, e in v[1]:
+                no_surrogates(k)
+                no_surrogates(e)
+    no_surrogates(t)
+    return t
+
+
+def json_depth(t):
+    if isinstance(t, list):
+        return 1 + max([json_depth(e) for e in t] or [0])
+    if isinstance(t, tuple):
+        return 1 + max([json_depth(e) for _, e in t[1]] or [0])
+    return 0
+
+
+def json_events(t, out):
+    if t is None:
+        out.append("z")
+    elif t is True:
+        out.append("t")
+    elif t is False:
+        out.append("f")
+    elif isinstance(t, _Tok):
+        out.append("n:" + cps(t))
+    elif isinstance(t, str):
+        out.append("s:" + cps(t))
+    elif isinstance(t, list):
+        out.append("[")
+        for e in t:
+            json_events(e, out)
+        out.append("]")
+    else:
+        out.append("{")
+        for k, e in t[1]:
+            out.append("s:" + cps(k))
+            json_events(e, out)
+        out.append("}")
+    return out
+
+
+def json_facts(t, facts):
+    """dup keys / number tokens outside the statement's scope"""
+    if isinstance(t, _Tok):
+        tok = str(t)
+        if tok.lstrip("-").isdigit():
+            if not (-2 ** 63 <= int(tok) < 2 ** 64) or tok in ("-0",):
+                facts.add("number-out-of-scope")
+        else:
+            mant = tok.lower().split("e")[0].replace("-", "").replace(".", "").strip("0")
+            exp = int(tok.lower().split("e")[1]) if "e" in tok.lower() else 0
+            if len(mant) > 15 or abs(exp) > 22:
+                facts.add("number-out-of-scope")
+    elif isinstance(t, list):
+        for e in t:
+            json_facts(e, facts)
+    elif isinstance(t, tuple):
+        ks = [k for k, _ in t[1]]
+        if len(set(ks)) != len(ks):
+            facts.add("duplicate-keys")
+        for _, e in t[1]:
+            json_facts(e, facts)
+    return facts
+
+
+def toml_facts(text):
+    import tomllib
+    import datetime
+    try:
+        d = tomllib.loads(text)
+    except Exception:
+        return None
+    facts = set()
+
+    def walk(v):
+        if isinstance(v, (datetime.datetime, datetime.date, datetime.time)):
+            facts.add("datetime")
+        elif isinstance(v, float):
+            facts.add("float")
+        elif isinstance(v, int) and not isinstance(v, bool) and not (-2 ** 63 <= v < 2 ** 63):
+            facts.add("int-beyond-i64")
+        elif isinstance(v, list):
+            for e in v:
+                walk(e)
+        elif isinstance(v, dict):
+            for e in v.values():
+                walk(e)
+    walk(d)
+    return facts
+
+
+def norm_model_show(s):
+    """model show -> harness show (numbers as #p or #p/q)"""
+    import re
+
+    def f(m):
+        q = Fraction(int(m.group(1))) * Fraction(10) ** int(m.group(2) or 0)
+        return "#%d" % q.numerator if q.denominator == 1 else "#%d/%d" % (q.numerator, q.denominator)
+    return re.sub(r"#(-?\d+)(?:e(-?\d+))?", f, s)
+
+
 def check_documents(ck, R, rng, quick, clf, corpus):
     tables = {"all_words": ["if", "null", "or", "a"]}
-    # in-scope documents: rendered from trees (numbers in scope, no duplicate keys)
     docs = []
     n = 800 if quick else 30000
     for i in range(n):
@@ -1074,7 +1196,6 @@ def check_documents(ck, R, rng, quick, clf, corpus):
         docs.append(("toml", t + "\n", None, False))
     for t in MALFORMED_YAML:
         docs.append(("yaml", t, None, False))
-    # mutated in-scope documents (malformed stream)
     for fmt, text, v, _ in list(docs[:200 if quick else 5000]):
         if not text:
             continue
@@ -1083,10 +1204,24 @@ def check_documents(ck, R, rng, quick, clf, corpus):
         t2 = text[:i] + text[i + 1:] if m == 0 else (text[:i] + rng.choice(list("\"\\{}[],:=.-+e0\n'#")) + text[i:] if m == 1 else
                                                      (text[:i] + text[i:i + 3] + text[i:] if m == 2 else text[:i]))
         docs.append((fmt, t2, None, False))
+    docs = [d for d in docs if not any(0xD800 <= ord(c) <= 0xDFFF for c in d[1])]
     cases = ["doc\t%s\t%s" % (fmt, cps(t)) for fmt, t, v, ins in docs]
     a = R.impl_only(cases)
+    # the event-level models on every JSON document that is valid JSON
+    ev_cases, ev_idx = [], []
+    for i, (fmt, text, v, ins) in enumerate(docs):
+        if fmt != "json":
+            continue
+        try:
+            tree = json_strict(text)
+        except ValueError:
+            continue
+        ev_cases.append("evs\t" + " ".join(json_events(tree, [])))
+        ev_idx.append((i, tree))
+    mres = R.model_only(ev_cases)
+    model_of = {i: (mres[j], tree) for j, (i, tree) in enumerate(ev_idx)}
     obs = {}
-    for (fmt, text, v, inscope), case, x in zip(docs, cases, a):
+    for i, ((fmt, text, v, inscope), case, x) in enumerate(zip(docs, cases, a)):
         ck.case(key=case, nontrivial=True)
         ck.hist("document_stream", ("in-scope:" if inscope else "foreign/malformed:") + fmt)
         if x.startswith("PANIC") or x == "<missing>":
@@ -1098,39 +1233,92 @@ def check_documents(ck, R, rng, quick, clf, corpus):
             continue
         per = dict(f.split("=", 1) for f in x.split("\t"))
         asyaml = per.pop("asyaml", None)
-        vals = {k: r for k, r in per.items()}
         if asyaml is not None and asyaml != per.get("imp"):
             obs.setdefault("json document read by the YAML loader differs (tabs, ...)", []).append((text, x))
+        # ---- event-level model vs the two JSON loaders
+        if i in model_of:
+            my, tree = model_of[i]
+            mf = model_fields(my)
+            ml, ms = norm_model_show(mf.get("loader", "?")), norm_model_show(mf.get("serde", "?"))
+            facts = json_facts(tree, set())
+            if json_depth(tree) >= 128:
+                facts.add("deeper-than-128")
+            ck.hist("json_event_model", ",".join(sorted(facts)) or "plain")
+            if "{dup}" not in ml and "Nbig" not in ml:
+                want = "ERR" if ml == "ERR" else ml
+                got = "ERR" if per["imp"].startswith("ERR(") else per["imp"]
+                if want != got:
+                    corr_fail(ck, "loader_run(events) vs load_json", case, x, my)
+            if "~float" not in ms and "deeper-than-128" not in facts:
+                want = "ERR" if ms == "ERR" else ms
+                got = "ERR" if per["des"].startswith("ERR(") else per["des"]
+                if want != got:
+                    corr_fail(ck, "serde_run(events) vs serde_json", case, x, my)
+        # ---- the property: every loader reads the same value
+        vals = dict(per)
+        distinct = set("ERR" if r.startswith("ERR(") else r for r in vals.values())
         if inscope:
             want = show_py(v)
             bad = {k: r for k, r in vals.items() if r != want}
             if bad:
-                # classify leaf-level: compare through the same classifier when possible
-                keyset = set()
-                for k, r in bad.items():
-                    kk = classify_doc_disagreement(fmt, k, want, r, v)
-                    keyset.add(kk)
+                keyset = set(classify_doc_disagreement(fmt, k, want, r, v) for k, r in bad.items())
                 for kk in keyset:
                     if kk:
                         ck.violation(kk, KNOWN_TEXT[kk], {"case": case, "text": text, "expected": want, "impl": x})
                     else:
                         ck.violation("doc:%s:%s" % (fmt, ",".join(sorted(bad))), "loaders do not read the generated document as the value it was rendered from",
                                      {"case": case, "text": text, "expected": want, "impl": x})
+            continue
+        if len(distinct) <= 1:
+            ck.hist("foreign_document_outcome", fmt + (":all-reject" if distinct == {"ERR"} else ":all-agree"))
+            continue
+        # foreign document on which the loaders disagree: why?
+        why = None
+        if fmt == "json":
+            try:
+                tree = json_strict(text)
+                facts = json_facts(tree, set())
+                if "duplicate-keys" in facts:
+                    why = "json-duplicate-keys"
+                elif json_depth(tree) >= 128:
+                    why = "obs:nesting deeper than serde_json's recursion limit (128): std.deserialize reports an error, import works"
+                elif "number-out-of-scope" in facts:
+                    why = "obs:number outside the 64-bit / short-decimal scope (event loader exact, serde through f64)"
+            except ValueError:
+                why = "obs:invalid JSON accepted by some loader only"
+        elif fmt == "toml":
+            facts = toml_facts(text)
+            if facts is None:
+                why = "obs:invalid TOML accepted by some loader only"
+            elif "int-beyond-i64" in facts:
+                why = "obs:TOML integer beyond i64 accepted by the serde path (toml::from_str) only"
+            elif "datetime" in facts:
+                why = "toml-datetime-deserialize"
+            elif "float" in facts:
+                why = "toml-import-float-exact"
+        elif fmt == "yaml":
+            if all("Budget" in r or "InfiniteRec" in r for r in vals.values() if r.startswith("ERR(")) and len(set(r for r in vals.values() if not r.startswith("ERR("))) <= 1 and \
+                    any("Budget" in r for r in vals.values()):
+                why = "obs:recursive anchors (infinite value)"
+        ck.hist("foreign_document_outcome", fmt + ":disagree:" + (why or "UNEXPLAINED"))
+        if why is None:
+            ck.violation("doc-disagree:%s:%s" % (fmt, ",".join("%s=%s" % (k, "ERR" if r.startswith("ERR(") else "v") for k, r in sorted(vals.items()))),
+                         "the loaders of one format read the same document differently", {"case": case, "text": text, "impl": x})
+        elif why.startswith("obs:"):
+            obs.setdefault(why[4:], []).append((text, x))
         else:
-            classes = set("ERR" if r.startswith("ERR(") else r for r in vals.values())
-            if len(classes) > 1:
-                sig = fmt + ":" + ",".join("%s=%s" % (k, "ERR" if r.startswith("ERR(") else ("A" if r == sorted(c for c in classes if c != "ERR")[0] else "B")) for k, r in sorted(vals.items()))
-                obs.setdefault("disagree " + sig, []).append((text, x))
+            ck.violation(why, KNOWN_TEXT[why], {"case": case, "text": text, "impl": x})
     ck.coverage["foreign_document_observations"] = {k: {"count": len(v), "example": v[0][0][:120], "impl": v[0][1][:400]} for k, v in sorted(obs.items())}
     ck.count("document_cases", len(cases))
+    ck.count("json_event_model_cases", len(ev_cases))
 
 
 def classify_doc_disagreement(fmt, loader, want, got, v):
     """in-scope documents: the only tolerated (known) disagreements"""
     if got.startswith("ERR("):
         return None
-    # find differing numeric leaves by a crude token diff
-    wa, ga = want.replace("[", ",").replace("]", ",").replace("{", ",").replace("}", ",").split(","), got.replace("[", ",").replace("]", ",").replace("{", ",").replace("}", ",").split(",")
+    split = lambda t: t.replace("[", ",").replace("]", ",").replace("{", ",").replace("}", ",").split(",")
+    wa, ga = split(want), split(got)
     if len(wa) != len(ga):
         return None
     keys = set()
